@@ -484,7 +484,7 @@ def rule_keynorm(ctx):
         def ax(w, st, cellterm, idx):
             return [Lin.term(cellterm) - Lin.term(w.named(("attr", "self", "max_key_len"), (0, 2 ** 64 - 1)))]
         axioms["self.key_lens"] = ax
-        w = F.walk(meth, cell_axioms=axioms)
+        w = F.walk(meth, cell_axioms=axioms, param_facts=_lhh_rowlen_fact)
         calls = [e for e in w.events if e.kind == "call" and e.callee is k]
         res = []
         for e in calls:
@@ -649,6 +649,14 @@ def rule_maxcount(ctx):
 # report / scan-all (python level): generate_candidate_set, __getitem__
 # ---------------------------------------------------------------------------
 
+def _lhh_rowlen_fact(w_, st_):
+    """The key table's last dimension is max_key_len (constructor allocation; rules layout / alloc-agree)."""
+    rl = Lin.term(w_.named(("rowlen", "self.lhh"), (0, 2 ** 64 - 1)))
+    mk = Lin.term(w_.named(("attr", "self", "max_key_len"), (0, 2 ** 64 - 1)))
+    st_.facts.append(rl - mk)
+    st_.facts.append(mk - rl)
+
+
 def rule_report(ctx):
     F = facts_of(ctx)
     cls = ctx.model.cls(*HH)
@@ -659,7 +667,7 @@ def rule_report(ctx):
 
     def ax(w, st, cellterm, idx):
         return [Lin.term(cellterm) - Lin.term(w.named(("attr", "self", "max_key_len"), (0, 2 ** 64 - 1)))]
-    w = F.walk(gcs, cell_axioms={"self.key_lens": ax})
+    w = F.walk(gcs, cell_axioms={"self.key_lens": ax}, param_facts=_lhh_rowlen_fact)
     ins = [e for e in w.events if e.kind == "otherstore" and isinstance(e.target, ast.Subscript)
            and dotted(e.target.value) == "self.candidate_set"]
     if not ins:
